@@ -241,6 +241,76 @@ fn c03_char_info_lookup() {
 }
 
 // ---------------------------------------------------------------------------------------
+// char.def -> table: the table is computed natively, at check time, by the current
+// `CharProperty::from_reader` (the text parser - BufReader::lines, split_whitespace,
+// HashMap<String,_> - does not fold inside CBMC, see DESIGN); the solver then decides, for every
+// Unicode scalar at once, that looking the character up in that table gives what the lines of
+// the file say.
+// ---------------------------------------------------------------------------------------
+#[cfg(kani)]
+fn chardef_expected(cp: u32) -> (u32, u32, bool, bool, u16) {
+    // categories in declaration order: DEFAULT=0 SPACE=1 ALPHA=2 KANJI=3 EDGE=4
+    // (cate_idset, base_id, invoke, group, length); later lines override earlier ones
+    if cp == 0xFFFE || cp == 0xFFFF {
+        (1 << 4, 4, true, false, 3)
+    } else if cp == 0x9FFF {
+        (1 << 2, 2, true, true, 0)
+    } else if cp >= 0x4E00 && cp <= 0x9FFF {
+        (1 << 3, 3, false, false, 2)
+    } else if cp >= 0x50 && cp <= 0x52 {
+        ((1 << 3) | (1 << 2), 3, false, false, 2)
+    } else if cp >= 0x41 && cp <= 0x5A {
+        (1 << 2, 2, true, true, 0)
+    } else if cp == 0x20 {
+        (1 << 1, 1, false, true, 0)
+    } else {
+        (1 << 0, 0, false, true, 0)
+    }
+}
+
+//@ c03_chardef_table {"desc":"for every Unicode scalar, looking the character up in the table that the current CharProperty::from_reader built from an 11-line char.def gives the categories, primary category and invoke/group/length of the last range line covering it (inclusive bounds, single-point lines, a multi-category line, an override inside a range, a range ending at U+FFFF), and DEFAULT when no line covers it (supplementary planes included)","bounds":"one concrete char.def (5 categories, 6 range lines; text in gen.rs CHARDEF_TEXT); the table is produced natively by from_reader at check time - the text parser itself is not executed symbolically","symbolic":"the character (all 0x110000 - 0x800 scalars)","functions":["CharProperty::from_reader (native, output checked)","CharProperty::char_info","CharInfo::cate_idset","CharInfo::base_id","CharInfo::invoke","CharInfo::group","CharInfo::length","CharProperty::cate_id"],"unwind":8,"timeout":900}
+#[cfg(kani)]
+#[kani::proof]
+fn c03_chardef_table() {
+    let n = gen::CHARDEF_TABLE.len();
+    // the static table is viewed as the Vec<CharInfo> it was dumped from (CharInfo is a u32
+    // newtype); it is never written or dropped
+    let table = unsafe { Vec::from_raw_parts(gen::CHARDEF_TABLE.as_ptr() as *mut CharInfo, n, n) };
+    let mut names = Vec::with_capacity(6);
+    for s in gen::CHARDEF_CATEGORIES.iter() {
+        names.push(String::from(*s));
+    }
+    let prop = CharProperty::verif_from_parts(table, names);
+    let c: char = kani::any();
+    let cp = c as u32;
+    let info = prop.char_info(c);
+    let e = chardef_expected(cp);
+    assert!(info.cate_idset() == e.0, "categories differ from the last covering char.def line");
+    assert!(info.base_id() == e.1, "primary category differs from the last covering char.def line");
+    assert!(info.invoke() == e.2 && info.group() == e.3 && info.length() == e.4, "invoke/group/length differ from the category definition");
+    kani::cover!(cp == 0xFFFF);
+    kani::cover!(cp == 0x51);
+    kani::cover!(cp > 0xFFFF);
+    core::mem::forget(prop);
+}
+
+//@ c03_kf_astral_inherits_u0000 {"desc":"a character no char.def line covers is DEFAULT: supplementary-plane characters when a range line covers U+0000 (known finding: they take U+0000's entry, as MeCab does)","bounds":"char.def of c03_chardef_table plus the line '0x0000 ALPHA'; first 4 table entries as built natively by from_reader","symbolic":"the character (>= U+10000)","functions":["CharProperty::char_info"],"unwind":8,"timeout":300,"core":false}
+#[cfg(kani)]
+#[kani::proof]
+fn c03_kf_astral_inherits_u0000() {
+    let mut table = Vec::with_capacity(5);
+    for i in 0..4 {
+        table.push(CharInfo::verif_from_raw(gen::CHARDEF0_HEAD[i]));
+    }
+    let prop = CharProperty::verif_from_parts(table, Vec::new());
+    let c: char = kani::any();
+    kani::assume(c as u32 > 0xFFFF);
+    let info = prop.char_info(c);
+    assert!(info.base_id() == 0 && info.cate_idset() == 1, "an uncovered character is not DEFAULT");
+    core::mem::forget(prop);
+}
+
+// ---------------------------------------------------------------------------------------
 // lexicon prefix search
 // ---------------------------------------------------------------------------------------
 const ALPHA: [char; 4] = ['\u{1}', '\u{2}', '\u{3}', '\u{3042}'];
